@@ -3,7 +3,7 @@ import BreezyVerif.Model.C43
 /-
 C43 driver.
 
-  up <mode inc|full> <variant A|C> <ign> <remote> <tree> <delta>
+  up <mode inc|full> <variant A|C|AS|CS: renames as found / children first; S = robust symlinks> <ign> <remote> <tree> <delta>
      ign    = `,`-joined plain names (`-` = none)
      remote = `;`-joined entries, parents first: `<path>|f|<content hex>|<T|F>`, `<path>|l|<target>`, `<path>|d`
               (path = components joined by `/`; `-` = empty directory)
@@ -81,12 +81,15 @@ def parseDelta (s : String) : Option Delta :=
 
 def handle : List String → String
   | ["up", mode, v, ign, remote, tree, delta] =>
-    match (if v == "A" then some Variant.asFound else if v == "C" then some Variant.childrenFirst else none),
+    match (match v with
+            | "A" => some ({} : Cfg) | "C" => some { renames := .childrenFirst }
+            | "AS" => some { robustSymlinks := true } | "CS" => some { renames := .childrenFirst, robustSymlinks := true }
+            | _ => none),
           (parseTree remote).bind buildFS, parseTree tree, parseDelta delta with
     | some v, some root, some t, some d =>
       let names := splitList ign
       let r := if mode == "inc" then some (uploadInc v names t d root)
-               else if mode == "full" then some (uploadFull names t root) else none
+               else if mode == "full" then some (uploadFull v names t root) else none
       match r with
       | some (root', err) =>
         let e := match err with | none => "~" | some e => e.toString
